@@ -200,6 +200,13 @@ class Executor:
         if missing or extra:
             raise Unsupported(f'struct {ty}: layout changed (missing {missing}, unknown {extra})')
         return Adt(ty, 0, {None: [Cell(kw[n]) for n in names]})
+    def mk_struct_partial(self, ty, **kw):
+        """struct with only the named fields populated; any other field read is an opaque `unset` value"""
+        names = self.L.structs[ty]
+        extra = [k for k in kw if k not in names]
+        if extra: raise Unsupported(f'struct {ty}: layout changed (unknown {extra})')
+        return Adt(ty, 0, {None: [Cell(kw[n] if n in kw else Opaque('unset', f'{ty}.{n}')) for n in names]})
+
     def field(self, adt, name):
         adt = dv(adt)
         return adt.fields[None][self.L.structs[adt.ty].index(name)]
@@ -564,11 +571,17 @@ class Executor:
             if isinstance(v, str): return len(v.encode())
             if isinstance(v, SB): return len(v.bs)
             raise Unsupported('Len of ' + repr(v))
-        m = re.match(r'^\{(closure|coroutine)@(.*?)\}( \{ (.*) \})?$', s, re.S)
+        m = re.match(r'^\{(closure|coroutine)@(.*?)(?: \(#\d+\))?\}( \{ (.*) \})?$', s, re.S)
         if m:
-            if m.group(1) == 'coroutine' or ' (#' in s[:0]:
-                pass
             ups = [self.operand(frame, a.split(': ', 1)[1], f) for a in split_top(m.group(4))] if m.group(4) else []
+            if m.group(1) == 'coroutine':
+                try:
+                    fn = self.closure_by_span(m.group(2))
+                except Unsupported:
+                    # the body of an `async fn` is {closure#0} of the function that builds it (its type carries no span)
+                    fn = self.cur_fn[-1] + '::{closure#0}'
+                    if fn not in self.fns or 'async fn body of' not in self.fns[fn].locals.get('_1', ''): raise
+                return self.mk_coroutine(fn, ups)
             return Closure(self.closure_by_span(m.group(2)), ups)
         m = re.match(r'^\{(async block|async fn body of [^@]*|async closure)@(.*?)\}( \{ (.*) \})?$', s, re.S)
         if m:
